@@ -1,36 +1,16 @@
-"""Per-property configuration of the orchestrator (./check)."""
-
+"""Per-property configuration of the orchestrator: one JSON file per claimed property in tools/props.d/."""
+import json, os, glob
+_D = os.path.join(os.path.dirname(os.path.abspath(__file__)), "props.d")
 COMMON_TB = [
     "correspondence harness (/verif/harness: generators, canonicaliser, differ) and the Lean line-protocol driver; "
     "compiled Lean code agreeing with the kernel's view of the same definitions",
     "every Impl model is a hand transcription of the Rust it names (modelled, not verified); it is tied to /repo only by the "
     "differential run of this check",
 ]
-
-PROPS = {
-    "C06": {
-        "bin": "c06",
-        "driver": "driver_c06",
-        "theorem_modules": ["NoulithModel.Theorems.C06"],
-        "level": "proof",
-        "level_text": "Lean theorems: for every operator name and every pair of well-formed integers in either representation "
-                      "(i64 fast path / BigInt, incl. small values held in BigInt) the Impl model of nint.rs/nnum.rs/lib.rs returns the "
-                      "Spec's exact Int result (binop_refines, unop_refines), never panics (binop_no_panic), equality/ordering/hash depend "
-                      "only on the value, floor/trunc identities and sign laws, bit operators characterised bit-by-bit on the infinite "
-                      "two's-complement expansion. The model is tied to /repo by running the real interpreter on ~13k (quick) / 150k "
-                      "(thorough) operand pairs produced by 6 different methods and diffing against model and spec.",
-        "level_note": "Trusted: Lean kernel; num-bigint operations modelled as exact Int operations; i64 checked_* modelled as 'fits i64'; "
-                      "the harness. is_prime/factorize are modelled and differentially tested but their correctness theorems are not proved yet.",
-        "trusted_base": COMMON_TB + [
-            "num-bigint BigInt + - * / % div_floor mod_floor pow gcd lcm sqrt & | ^ ! << >> to_i64: modelled as the exact "
-            "operation on Lean Int (two's-complement bit operators defined in Impl/NInt.lean and characterised bit-by-bit)",
-            "Rust i64 checked_add/sub/mul/div/rem/abs: modelled as 'Some iff the exact result fits i64'",
-        ],
-        "assumptions": [
-            "operands are well-formed NInt values (Small holds an i64) - proved preserved by every operator",
-            "`^` exponents are limited to |e| <= 300 and `<<` to shifts <= 5000 in the differential run (memory), not in the theorems",
-        ],
-        "unproved": ["is_prime_correct / factorize_correct: lazy_is_prime and lazy_factorize are modelled and compared "
-                     "differentially against a trial-division spec (n <= 3e6), not yet proved"],
-    },
-}
+PROPS = {}
+for _f in sorted(glob.glob(os.path.join(_D, "C*.json"))):
+    _c = json.load(open(_f))
+    _pid = os.path.basename(_f)[:-5]
+    _c.setdefault("trusted_base", [])
+    _c["trusted_base"] = COMMON_TB + [t for t in _c["trusted_base"] if t not in COMMON_TB]
+    PROPS[_pid] = _c
